@@ -218,16 +218,21 @@ Definition better_header : bytes := c_better_hdr.
 Definition better_aes_encrypt (pw v iv : bytes) : bytes :=
   b64e P (better_header ++ iv ++ E P (scrypt P pw iv 8192 16 1) iv v).
 
+(* the bytes before the first ':' and, if there is one, the bytes after it *)
+Fixpoint take_field (d acc : bytes) : bytes * option bytes :=
+  match d with
+  | [] => (rev acc, None)
+  | b :: r => if byte_eqb b colon then (rev acc, Some r) else take_field r (b :: acc)
+  end.
+
 (* bytes.split(b':', maxsplit=k): at most k cuts, the rest is the last field *)
 Fixpoint split_colon (k : nat) (d : bytes) : list bytes :=
   match k with
   | O => [d]
-  | S k' =>
-      (fix go (d acc : bytes) : list bytes :=
-         match d with
-         | [] => [rev acc]
-         | b :: r => if byte_eqb b colon then rev acc :: split_colon k' r else go r (b :: acc)
-         end) d []
+  | S k' => match take_field d [] with
+            | (f, Some r) => f :: split_colon k' r
+            | (f, None) => [f]
+            end
   end.
 
 (* int(b'8192'): plain ASCII digits only are modelled (anything else = ValueError) *)
@@ -439,6 +444,14 @@ Definition pref_on (w : wallet) : bool :=
   | _ => false
   end.
 
+(* preferences.get(ENCRYPT_ON_DISK) is None : the key is absent or its value is null *)
+Definition pref_is_none (w : wallet) : bool :=
+  match jget EOD (w_prefs w) with
+  | Some (JO e) => match jget c_value e with Some JNull => true | Some _ => false | None => true end
+  | Some _ => false
+  | None => true
+  end.
+
 Definition pref_set (k : bytes) (v : jv) (ts : Z) (w : wallet) : wallet :=
   mkWallet (w_name w) (jset k (JO [(c_value, v); (c_ts, JN ts)]) (w_prefs w)) (w_accounts w) (w_pw w).
 
@@ -533,6 +546,14 @@ Definition unpack (pw data : bytes) : res bytes :=
             end
   end.
 
+(* Wallet.merge, the part that turns the incoming sync data into JSON text: `password is None` means the data is plain
+   JSON; ANY string -- the empty one included -- means an encrypted payload that goes through unpack *)
+Definition merge_payload (pwd : option bytes) (data : bytes) : res bytes :=
+  match pwd with
+  | None => Ok data
+  | Some pw => unpack pw data
+  end.
+
 (* Wallet.from_storage on the image of a file *)
 Fixpoint accounts_of_dicts (l : list jv) : option (list account) :=
   match l with
@@ -624,6 +645,24 @@ Fixpoint crash_at (umask : N) (n k : nat) (ops : list fsop) (t : fs) : fs :=
   | S _, [] => t
   end.
 
+(* two processes saving the same wallet file: A performs its first k operations, then B starts its own save (its
+   operation list is computed from the file system it finds) and dies at crash point (n, kb) -- or completes --, then A
+   performs the rest of its operations *)
+Definition two_writers (umask : N) (path : bytes) (pidA pidB : N) (dA dB : bytes) (k n kb : nat) (t : fs) : fs :=
+  let t1 := run_ops umask (firstn k (storage_write path pidA dA t)) t in
+  let t2 := crash_at umask n kb (storage_write path pidB dB t1) t1 in
+  (* A's os.path.exists is its operation 5 and its os.stat operation 6: each sees the file system of its own moment *)
+  let exists_fs := if Nat.leb k 5 then t2 else t in
+  let stat_fs := if Nat.leb k 6 then t2 else t in
+  let tmp := temp_path path pidA in
+  let opsA := [FOpenW tmp; FWrite tmp dA; FFlush tmp; FFsync tmp; FClose tmp; FExists path] ++
+              match exists_fs path with
+              | Some _ => [FStat path; FRename tmp path;
+                           FChmod path (match stat_fs path with Some f => f_mode f | None => 384 end)]
+              | None => [FRename tmp path; FChmod path 384]
+              end in
+  run_ops umask (skipn k opsA) t2.
+
 (* ------------------------------------------------------------------------------------------ *)
 (* the wallet process as a state machine over a file system                                    *)
 (* ------------------------------------------------------------------------------------------ *)
@@ -646,7 +685,11 @@ Inductive mop :=
 | MAccEncrypt (i : nat) (pw : bytes) (rnd : list bytes)            (* accounts[i].encrypt(pw) *)
 | MAccDecrypt (i : nat) (pw : bytes)                               (* accounts[i].decrypt(pw) *)
 | MSetCipher (i : nat) (seed pks : bytes)                          (* overwrite the stored ciphertexts *)
-| MTouchChannel (i : nat).   (* accounts[i].deterministic_channel_keys: private_key, ensure_cache_primed(), lookup *)
+| MTouchChannel (i : nat)
+| MStart (ts : Z) (rnd : list bytes) (pid : N).
+    (* daemon start-up, WalletManager.from_lbrynet_config: load the default wallet from its file; a wallet whose accounts
+       are stored encrypted but whose file predates the encrypt-on-disk preference gets the preference switched on (and
+       is saved), so that later saves of the unlocked wallet stay encrypted *)   (* accounts[i].deterministic_channel_keys: private_key, ensure_cache_primed(), lookup *)
 
 Inductive mout := OTrue | OFalse | OExc (e : exc) | OBadShape.
 
@@ -728,6 +771,18 @@ Definition step (op : mop) (st : mstate) : mout * mstate :=
                      mkState (with_accounts w (upd_nth i (fun a => snd (account_decrypt pw a)) (w_accounts w)))
                              (m_fs st) (m_img st))
                   else (OExc EAssertion, st)
+      | None => (OBadShape, st)
+      end
+  | MStart ts rnd pid =>
+      match reload (m_img st) with
+      | Some w0 =>
+          match w_accounts w0 with
+          | [] => (OBadShape, st)             (* an empty wallet gets a freshly generated account: not modelled *)
+          | _ :: _ =>
+              if is_locked w0 && pref_is_none w0
+              then (OTrue, do_save ts rnd pid (mkState (pref_set EOD (JB true) ts w0) (m_fs st) (m_img st)))
+              else (OTrue, mkState w0 (m_fs st) (m_img st))
+          end
       | None => (OBadShape, st)
       end
   | MTouchChannel i =>                      (* reading the channel key manager changes nothing observable *)
